@@ -62,9 +62,11 @@ pub enum Opt {
     Type,
     /// `bound(.., T: M_l)`: the default marker written BEFORE the predicate
     DotsPred,
+    /// `bound(W_l<u8>)`: a type that does not mention any parameter
+    TypeNoParam,
 }
 impl Opt {
-    pub const ALL: [Opt; 7] = [Opt::Absent, Opt::Empty, Opt::Pred, Opt::Dots, Opt::PredDots, Opt::Type, Opt::DotsPred];
+    pub const ALL: [Opt; 8] = [Opt::Absent, Opt::Empty, Opt::Pred, Opt::Dots, Opt::PredDots, Opt::Type, Opt::DotsPred, Opt::TypeNoParam];
     pub const THREE: [Opt; 3] = [Opt::Absent, Opt::Pred, Opt::PredDots];
     fn continues(self) -> bool {
         matches!(self, Opt::Absent | Opt::Dots | Opt::PredDots | Opt::DotsPred)
@@ -78,6 +80,7 @@ impl Opt {
             Opt::PredDots => format!("bound(T: M{n}, ..)"),
             Opt::Type => format!("bound(W{n}<T>)"),
             Opt::DotsPred => format!("bound(.., T: M{n})"),
+            Opt::TypeNoParam => format!("bound(W{n}<u8>)"),
         })
     }
     fn short(self) -> &'static str {
@@ -89,6 +92,7 @@ impl Opt {
             Opt::PredDots => "bound(P,..)",
             Opt::Type => "bound(Ty)",
             Opt::DotsPred => "bound(..,P)",
+            Opt::TypeNoParam => "bound(Ty<u8>)",
         }
     }
 }
@@ -168,6 +172,8 @@ pub struct Case {
     pub key_on2: Option<Tr>,
     /// Default configs: the probed field carries an explicit value `#[default(F1::new())]`
     pub dvalue: bool,
+    /// Debug configs: the probed field carries `#[debug(transparent)]`
+    pub dtransparent: bool,
     pub entry: Entry,
     pub attr: String,
     pub item: String,
@@ -178,7 +184,7 @@ fn bound_arg(o: Opt, n: usize) -> Option<String> {
 }
 
 /// Render attribute + item text for a configuration and an option per slot.
-fn render(cfg: &Config, opts: &[Opt], key_on: Option<Tr>, key_on2: Option<Tr>, dvalue: bool) -> (String, String) {
+fn render(cfg: &Config, opts: &[Opt], key_on: Option<Tr>, key_on2: Option<Tr>, dvalue: bool, dtransparent: bool) -> (String, String) {
     let at = |place: Place, kind: &Kind| -> Option<(usize, Opt)> { cfg.slots.iter().position(|s| s.place == place && &s.kind == kind).map(|i| (i, opts[i])) };
     // derive_ex argument list for a placement; `always` = list every derived trait
     let list = |place: Place, always: bool| -> Option<String> {
@@ -222,7 +228,8 @@ fn render(cfg: &Config, opts: &[Opt], key_on: Option<Tr>, key_on2: Option<Tr>, d
                         _ => {}
                     }
                 } else {
-                    let args: Vec<String> = key.into_iter().chain(b.into_iter()).collect();
+                    let tr = if h == "debug" && place == Place::Field && dtransparent { Some("transparent".to_string()) } else { None };
+                    let args: Vec<String> = tr.into_iter().chain(key.into_iter()).chain(b.into_iter()).collect();
                     if !args.is_empty() {
                         v.push(format!("#[{}({})]", h, args.join(", ")));
                     }
@@ -275,10 +282,12 @@ pub enum Exp {
     Decl,
     Pred(usize),
     Ty(usize),
+    /// `W<n><u8>: <trait form>`
+    TyNoParam(usize),
     Field(usize),
 }
 
-pub fn ref_bounds(cfg: &Config, opts: &[Opt], key_on: Option<Tr>, key_on2: Option<Tr>, dvalue: bool, t: &str) -> BTreeSet<Exp> {
+pub fn ref_bounds(cfg: &Config, opts: &[Opt], key_on: Option<Tr>, key_on2: Option<Tr>, dvalue: bool, dtransparent: bool, t: &str) -> BTreeSet<Exp> {
     let mut out = BTreeSet::new();
     out.insert(Exp::Decl);
     let tr = Tr::from_name(t);
@@ -318,6 +327,9 @@ pub fn ref_bounds(cfg: &Config, opts: &[Opt], key_on: Option<Tr>, key_on2: Optio
                 }
                 Opt::Type => {
                     out.insert(Exp::Ty(i));
+                }
+                Opt::TypeNoParam => {
+                    out.insert(Exp::TyNoParam(i));
                 }
                 _ => {}
             }
@@ -359,7 +371,7 @@ pub fn ref_bounds(cfg: &Config, opts: &[Opt], key_on: Option<Tr>, key_on2: Optio
         if use_a0 && probed_used {
             out.insert(Exp::Field(1));
         }
-        if use_a {
+        if use_a && !(dtransparent && t == "Debug") {
             out.insert(Exp::Field(2));
         }
         // Default: only the default variant (A) is constructed
@@ -371,7 +383,7 @@ pub fn ref_bounds(cfg: &Config, opts: &[Opt], key_on: Option<Tr>, key_on2: Optio
         if use_0 && probed_used {
             out.insert(Exp::Field(1));
         }
-        if use_type && !cfg.derived.iter().any(|d| !field_levels(d)) {
+        if use_type && !cfg.derived.iter().any(|d| !field_levels(d)) && !(dtransparent && t == "Debug") {
             out.insert(Exp::Field(2));
         }
     }
@@ -420,6 +432,7 @@ fn concretise(e: &BTreeSet<Exp>, template: &str) -> BTreeSet<String> {
             Exp::Decl => "T : Decl".to_string(),
             Exp::Pred(n) => format!("T : M{n}"),
             Exp::Ty(n) => template.replace('§', &format!("W{n} < T >")),
+            Exp::TyNoParam(n) => template.replace('§', &format!("W{n} < u8 >")),
             Exp::Field(k) => template.replace('§', &format!("F{k} < T >")),
         })
         .collect()
@@ -505,6 +518,8 @@ fn gen(ch: &mut Ch, cfgs: &[Config], plan: &Plan) -> Option<Case> {
     // Default configs with field levels: the probed field with / without an explicit value
     let has_default_field = cfg.derived.iter().any(|d| d == "Default") && cfg.slots.iter().any(|s| s.place == Place::Field && s.kind == Kind::Helper("default".into()));
     let dvalue = has_default_field && mode == 0 && ch.pick(2) == 1;
+    let has_debug_field = cfg.derived.iter().any(|d| d == "Debug") && cfg.slots.iter().any(|s| s.place == Place::Field && s.kind == Kind::Helper("debug".into()));
+    let dtransparent = has_debug_field && mode == 0 && ch.pick(2) == 1;
     let mut opts = Vec::with_capacity(cfg.slots.len());
     let mut dev = 0;
     if mode == 0 {
@@ -543,8 +558,8 @@ fn gen(ch: &mut Ch, cfgs: &[Config], plan: &Plan) -> Option<Case> {
     if mode == 2 && plan.full3.contains(&cfg.name.as_str()) && opts.iter().all(|o| Opt::THREE.contains(o)) {
         return None;
     }
-    let (attr, item) = render(cfg, &opts, key_on, key_on2, dvalue);
-    Some(Case { cfg: ci, vector: ch.vector(), opts, key_on, key_on2, dvalue, entry, attr, item })
+    let (attr, item) = render(cfg, &opts, key_on, key_on2, dvalue, dtransparent);
+    Some(Case { cfg: ci, vector: ch.vector(), opts, key_on, key_on2, dvalue, dtransparent, entry, attr, item })
 }
 
 #[derive(Debug)]
@@ -561,7 +576,7 @@ fn evaluate(cfg: &Config, c: &Case, templates: &BTreeMap<String, Vec<String>>) -
     };
     let mut per_trait = Vec::new();
     for (k, d) in cfg.derived.iter().enumerate() {
-        let exp = ref_bounds(cfg, &c.opts, c.key_on, c.key_on2, c.dvalue, d);
+        let exp = ref_bounds(cfg, &c.opts, c.key_on, c.key_on2, c.dvalue, c.dtransparent, d);
         // I1: whether `#[partial_eq(bound(..))]` reaches Eq's where-clause is unspecified
         if d == "Eq" && cfg.slots.iter().enumerate().any(|(i, s)| s.kind == Kind::Helper("partial_eq".into()) && c.opts[i] != Opt::Absent) {
             per_trait.push(Ok(Vec::new()));
@@ -603,12 +618,15 @@ fn describe(cfg: &Config, c: &Case) -> String {
     if c.dvalue {
         v.push("field:#[default(value)]".into());
     }
+    if c.dtransparent {
+        v.push("field:#[debug(transparent)]".into());
+    }
     format!("[{}] {}", cfg.name, v.join(" "))
 }
 
 pub fn run(ctx: &Ctx, rep: &mut Report) {
     let thorough = ctx.tier.is_thorough();
-    rep.rule = "terminal state = (probe configuration [derived trait set x struct/enum], entry point, optional key placement, one bound option out of {absent, bound(), bound(T: M_l), bound(..), bound(T: M_l, ..), bound(W_l<T>), bound(.., T: M_l)} per priority level; Default configurations also with an explicit value on the probed field incl. one slot per recognised comparison helper attribute at each placement); bounded by the number of non-absent levels, plus full products over {absent, bound(P), bound(P, ..)} for the small configurations; distinct by program text; non-trivial = at least one level non-absent".into();
+    rep.rule = "terminal state = (probe configuration [derived trait set x struct/enum], entry point, optional key placement, one bound option out of {absent, bound(), bound(T: M_l), bound(..), bound(T: M_l, ..), bound(W_l<T>), bound(.., T: M_l), bound(W_l<u8>)} per priority level; Default configurations also with an explicit value on the probed field, Debug configurations also with #[debug(transparent)] on it incl. one slot per recognised comparison helper attribute at each placement); bounded by the number of non-absent levels, plus full products over {absent, bound(P), bound(P, ..)} for the small configurations; distinct by program text; non-trivial = at least one level non-absent".into();
     rep.assumptions = vec![
         "reference ref_bounds of DESIGN.md 5/C04 (from doc/derive_ex.md 'Specify trait bound'); interpretations I1, I5 (sets of predicates)".into(),
         "the textual form of a default / Type bound is calibrated per trait on `struct C<T>(F1<T>)`; its semantic adequacy is C03's business".into(),
@@ -643,8 +661,9 @@ pub fn run(ctx: &Ctx, rep: &mut Report) {
         let entry = if cs["entry"] == "derive" { Entry::Derive } else { Entry::Attr };
         let dvalue = cs["dvalue"].as_bool().unwrap_or(false);
         let key_on2 = cs["key_on2"].as_str().and_then(|k| Tr::ALL.iter().copied().find(|t| t.attr() == k));
-        let (attr, item) = render(&cfgs[ci], &opts, key_on, key_on2, dvalue);
-        let c = Case { cfg: ci, vector: vec![], opts, key_on, key_on2, dvalue, entry, attr, item };
+        let dtransparent = cs["dtransparent"].as_bool().unwrap_or(false);
+        let (attr, item) = render(&cfgs[ci], &opts, key_on, key_on2, dvalue, dtransparent);
+        let c = Case { cfg: ci, vector: vec![], opts, key_on, key_on2, dvalue, dtransparent, entry, attr, item };
         let a = format!("{:?}", evaluate(&cfgs[ci], &c, &templates));
         let b = format!("{:?}", evaluate(&cfgs[ci], &c, &templates));
         assert_eq!(a, b, "replay observations differ between two runs");
@@ -657,7 +676,7 @@ pub fn run(ctx: &Ctx, rep: &mut Report) {
     let mut process = |rep: &mut Report, cases: &Vec<Case>, distinct_where: &mut BTreeSet<String>, conform_inputs: &mut Vec<crate::conform::Input>| {
     let evals = par_map(cases, threads(), |_, c| evaluate(&cfgs[c.cfg], c, &templates));
     for c in cases.iter() {
-        if c.opts.iter().filter(|o| **o != Opt::Absent).count() <= 1 && c.key_on.is_none() && !c.dvalue {
+        if c.opts.iter().filter(|o| **o != Opt::Absent).count() <= 1 && c.key_on.is_none() && !c.dvalue && !c.dtransparent {
             conform_inputs.push(crate::conform::Input { entry: c.entry, attr: c.attr.clone(), item: c.item.clone() });
         }
     }
@@ -688,6 +707,9 @@ pub fn run(ctx: &Ctx, rep: &mut Report) {
             if c.dvalue {
                 a.insert("default_value_on_field".into());
             }
+            if c.dtransparent {
+                a.insert("debug_transparent_on_field".into());
+            }
             a
         };
         match e {
@@ -695,7 +717,7 @@ pub fn run(ctx: &Ctx, rep: &mut Report) {
                 symptom: "expansion-failed".into(),
                 atoms: mk_atoms(None),
                 what: format!("{}: {}", describe(cfg, c), first_line(m)),
-                detail: json!({"vector": c.vector, "config": cfg.name, "opts": c.opts.iter().map(|o| Opt::ALL.iter().position(|x| x == o).unwrap()).collect::<Vec<_>>(), "key_on": c.key_on.map(|k| k.attr()), "key_on2": c.key_on2.map(|k| k.attr()), "dvalue": c.dvalue, "entry": c.entry.name(), "attr": c.attr, "item": c.item, "observed": m}),
+                detail: json!({"vector": c.vector, "config": cfg.name, "opts": c.opts.iter().map(|o| Opt::ALL.iter().position(|x| x == o).unwrap()).collect::<Vec<_>>(), "key_on": c.key_on.map(|k| k.attr()), "key_on2": c.key_on2.map(|k| k.attr()), "dvalue": c.dvalue, "dtransparent": c.dtransparent, "entry": c.entry.name(), "attr": c.attr, "item": c.item, "observed": m}),
                 standalone: None,
             }),
             Ok(ev) => {
@@ -705,7 +727,7 @@ pub fn run(ctx: &Ctx, rep: &mut Report) {
                             symptom: "trait-not-generated".into(),
                             atoms: mk_atoms(Some(d)),
                             what: format!("{} trait {}: {}", describe(cfg, c), d, first_line(m)),
-                            detail: json!({"vector": c.vector, "config": cfg.name, "opts": c.opts.iter().map(|o| Opt::ALL.iter().position(|x| x == o).unwrap()).collect::<Vec<_>>(), "key_on": c.key_on.map(|k| k.attr()), "key_on2": c.key_on2.map(|k| k.attr()), "dvalue": c.dvalue, "entry": c.entry.name(), "attr": c.attr, "item": c.item, "trait": d, "observed": m}),
+                            detail: json!({"vector": c.vector, "config": cfg.name, "opts": c.opts.iter().map(|o| Opt::ALL.iter().position(|x| x == o).unwrap()).collect::<Vec<_>>(), "key_on": c.key_on.map(|k| k.attr()), "key_on2": c.key_on2.map(|k| k.attr()), "dvalue": c.dvalue, "dtransparent": c.dtransparent, "entry": c.entry.name(), "attr": c.attr, "item": c.item, "trait": d, "observed": m}),
                             standalone: None,
                         }),
                         Ok(v) => {
@@ -718,7 +740,7 @@ pub fn run(ctx: &Ctx, rep: &mut Report) {
                                         symptom: "where-clause-differs-from-priority-rule".into(),
                                         atoms: mk_atoms(Some(d)),
                                         what: format!("{} impl #{} of {}: missing {:?}, unexpected {:?}", describe(cfg, c), n, d, missing, extra),
-                                        detail: json!({"vector": c.vector, "config": cfg.name, "opts": c.opts.iter().map(|o| Opt::ALL.iter().position(|x| x == o).unwrap()).collect::<Vec<_>>(), "key_on": c.key_on.map(|k| k.attr()), "key_on2": c.key_on2.map(|k| k.attr()), "dvalue": c.dvalue, "entry": c.entry.name(), "attr": c.attr, "item": c.item, "trait": d, "impl_index": n, "expected_where": exp, "observed_where": got}),
+                                        detail: json!({"vector": c.vector, "config": cfg.name, "opts": c.opts.iter().map(|o| Opt::ALL.iter().position(|x| x == o).unwrap()).collect::<Vec<_>>(), "key_on": c.key_on.map(|k| k.attr()), "key_on2": c.key_on2.map(|k| k.attr()), "dvalue": c.dvalue, "dtransparent": c.dtransparent, "entry": c.entry.name(), "attr": c.attr, "item": c.item, "trait": d, "impl_index": n, "expected_where": exp, "observed_where": got}),
                                         standalone: None,
                                     });
                                 }
